@@ -25,7 +25,7 @@ SCRIPT_HEADER = ("from onnxscript import script\n"
 SCRIPT_STRATA = [
     "straight", "straight_ops", "literals", "multi_output", "if", "if_nested", "for_tensor_n", "for_literal_n", "for_uses_index",
     "while", "for_break", "if_in_for", "for_in_if", "for_in_for", "while_in_if", "if_in_while", "two_loops", "if_two_outputs",
-    "calls_function", "attr_param",
+    "calls_function", "attr_param", "attr_param_in_control_flow",
 ]
 
 _UN = ["op.Relu({a})", "op.Neg({a})", "op.Abs({a})", "op.Sigmoid({a})", "op.Tanh({a})", "op.Identity({a})",
@@ -220,6 +220,20 @@ def script_program(stratum, rnd):
         attrs = {"alpha": float(rnd.choice([0.25, 0.5, 2.0])), "k": int(rnd.choice([1, 2]))}
         lines.append(f"    acc = op.LeakyRelu(acc, alpha=alpha)")
         lines.append(f"    acc = op.Cast(op.Cast(acc, to=7) + k, to=1)")
+        lines.append(g.update(acc, pool, ind))
+    elif stratum == "attr_param_in_control_flow":
+        # a non-INT attribute parameter that is referenced ONLY inside one subgraph (then / else / loop body)
+        function_only = True
+        attrs = {"alpha": float(rnd.choice([0.25, 0.5, 2.0])), "k": int(rnd.choice([1, 2]))}
+        where = rnd.choice(["else", "else", "then", "loop"])
+        lines.append("    c = op.ReduceSum(acc, keepdims=0) > 0.0")
+        if where == "else":
+            lines += ["    if c:", "        acc = op.Relu(acc)", "    else:", "        acc = op.LeakyRelu(acc, alpha=alpha)"]
+        elif where == "then":
+            lines += ["    if c:", "        acc = op.LeakyRelu(acc, alpha=alpha)", "    else:", "        acc = op.Relu(acc)"]
+        else:
+            lines += ["    for i in range(2):", "        acc = op.LeakyRelu(acc, alpha=alpha) + 1.0"]
+        lines.append("    acc = op.Cast(op.Cast(acc, to=7) + k, to=1)")
         lines.append(g.update(acc, pool, ind))
     else:
         raise ValueError(stratum)
